@@ -98,13 +98,19 @@ func TomlKeyToEvCode(key string, lookupTable map[string]evdev.EvCode) (evdev.EvC
 
 }
 
-func ParseData(data []byte) (Config, error) {
+func ParseData(data []byte) (conf Config, err error) {
+	defer func() {
+		if r := recover(); r != nil {
+			conf, err = Config{}, fmt.Errorf("parsing failed: %v", r)
+		}
+	}()
+
 	cfg := TOMLDeviceConfig{}
 
 	d := toml.NewDecoder(bytes.NewReader(data))
 	d.DisallowUnknownFields()
 
-	err := d.Decode(&cfg)
+	err = d.Decode(&cfg)
 	if err != nil {
 		return Config{}, fmt.Errorf("parsing failed: %w", err)
 	}
